@@ -6,8 +6,17 @@ type Seq uint64
 
 var seq uint64
 
+// Set raises the global sequence to s if it is lower.
+//
+// The counter is shared by every database opened by the process, so it must
+// never stay below the highest sequence persisted in any of them.
 func Set(s Seq) {
-	atomic.CompareAndSwapUint64(&seq, 0, uint64(s))
+	for {
+		cur := atomic.LoadUint64(&seq)
+		if cur >= uint64(s) || atomic.CompareAndSwapUint64(&seq, cur, uint64(s)) {
+			return
+		}
+	}
 }
 
 func Next() Seq {
